@@ -10,10 +10,13 @@ def run(run):
     n = 0
     for cfg in cfgs:
         n += machine.check_family(run, cfg, f"Machine ({cfg})")
+    nr = machine.check_random(run, FAMILY, 1500 if quick else 60000, "MachineRand: seeded random programs")
+    run.cov["random_programs"] = nr
+    n += nr
     run.cov["traces_validated_against_impl"] = n
     run.cov["evaluations"] = n
     run.cov["distinct_nontrivial"] = n
-    run.cov["rule"] = "distinct generated programs (parameter tuples of MachineGen) whose model run terminated; each rendered and executed once"
+    run.cov["rule"] = "distinct programs (parameter tuples of MachineGen, and seeded random syntax trees of harness/proggen.py evaluated by MachineRand) whose model run terminated; each rendered and executed once"
     run.cov["exhaustive"] = True
     run.assumptions += machine.ASSUMPTIONS
 
